@@ -1,0 +1,17 @@
+//! Observation hooks for the model-based verification harness (`--cfg serde_saphyr_verif`).
+//!
+//! Nothing here is compiled unless that cfg is set. The hooks only READ abstract state at
+//! seams of the implementation; they never change behaviour.
+
+/// Snapshot of the thread-local anchor bookkeeping used while deserializing the anchor
+/// wrapper types: `(context stack depth, stored anchors, anchors in progress)`.
+/// At every call boundary of the public API it must be `(0, 0, 0)`.
+pub fn anchor_state() -> (usize, usize, usize) {
+    crate::anchor_store::verif_snapshot()
+}
+
+/// The thread-local fallback location used for errors that have no span of their own
+/// (`line`, `column`), or `None` when no deserialization is in progress.
+pub fn missing_field_fallback() -> Option<(u64, u64)> {
+    crate::de_error::verif_missing_field_fallback()
+}
